@@ -153,6 +153,7 @@ func (mc *machine) call(entry int, pkgLevel bool, outcome int, dur time.Duration
 	reqErr := errors.New("req failed")
 	accErr := errors.New("acceptable failure")
 	panicVal := fmt.Sprintf("boom-%d", mc.calls)
+	ctx := context.Background()
 	req := func() error {
 		ran++
 		m.adv(dur)
@@ -161,6 +162,11 @@ func (mc *machine) call(entry int, pkgLevel bool, outcome int, dur time.Duration
 		case oOK, oNilBad:
 			return nil
 		case oErr:
+			if ctxMode == 2 && mc.calls%2 == 0 && ctx.Err() != nil {
+				// the work notices that its context has ended and reports exactly that error: still an
+				// unacceptable outcome of an admitted call (the default predicate accepts nil only)
+				reqErr = ctx.Err()
+			}
 			return reqErr
 		case oAccErr:
 			return accErr
@@ -179,7 +185,6 @@ func (mc *machine) call(entry int, pkgLevel bool, outcome int, dur time.Duration
 	}
 	var fbArg error
 	fb := func(err error) error { fbRan++; fbArg = err; return fbErr }
-	ctx := context.Background()
 	wantCtxErr := context.Canceled
 	switch ctxMode {
 	case 1:
